@@ -257,10 +257,12 @@ def cases_for(tier):
             for name, spec in size_specs(n, tier, small):
                 if n == 5 and name == "list" and (sum(1 for x in spec[1] if x is not None) > 1 or len(edges) != 4):
                     continue
+                if tier == "quick" and n == 4 and name == "list" and len(edges) > 4 and any(x is not None for x in spec[1]):
+                    continue
                 out.append({"variant": "plain", "form": "graph", "n": n, "edges": list(edges), "spec": spec})
                 if name == "list" and n <= 3:
                     out.append({"variant": "plain", "form": "graph", "n": n, "edges": list(edges), "spec": spec, "as_array": True})
-                if name == "list" and (n <= 3 or len(edges) == 3) and any(x is None for x in spec[1]) and any(x is not None for x in spec[1]):
+                if name == "list" and (n <= 3 or (len(edges) == 3 and tier != "quick")) and any(x is None for x in spec[1]) and any(x is not None for x in spec[1]):
                     out.append({"variant": "plain", "form": "graph", "n": n, "edges": list(edges), "spec": ("mixed", spec[1])})
             if n <= 4 and edges:
                 out.append({"variant": "plain", "form": "graph", "n": n, "edges": graphref.orient(edges, 1), "spec": ("var",)})
@@ -285,7 +287,7 @@ def cases_for(tier):
         for edges in graphref.simple_graphs(n):
             specs = [("absent", None)] + [(nm, sp) for nm, sp in size_specs(n, tier, n <= 3) if nm == "list"]
             for name, spec in specs:
-                if tier == "quick" and n == 4 and len(edges) > 4 and spec is not None and any(x is not None for x in spec[1]):
+                if tier == "quick" and n == 4 and len(edges) > 3 and spec is not None and any(x is not None for x in spec[1]):
                     continue
                 for prim, cfg in ((False, False), (True, False)):
                     out.append({"variant": "borders", "form": "graph", "n": n, "edges": list(edges), "spec": spec, "prim": prim, "cfg": cfg})
@@ -430,6 +432,15 @@ def worker(shard, part):
         run_case(part, case, None if plo is None else (plo, phi))
     if lo < len(_CASES) and (lo // 3) % 300 == 0:
         part.sample(_CASES[lo])
+
+
+def _describe(shard):
+    lo, hi, plo, phi = shard
+    c = _CASES[lo]
+    return "%d case(s) %s %s" % (hi - lo, (plo, phi), {k: (v if not isinstance(v, (list, tuple)) or len(v) < 6 else "[%d]" % len(v)) for k, v in c.items()})
+
+
+worker.describe = _describe
 
 
 _BRUTE = [300]
